@@ -55,6 +55,7 @@ pub fn fuzz_entry(id: &str, lane: &str) -> Option<&'static crate::engine::runner
         ("C05", "schedules") => Some(&c05::case_sched),
         ("C06", "sequential") => Some(&c06::case_seq),
         ("C06", "concurrent") => Some(&c06::case_conc),
+        ("C06", "custom-key-colliding-hashes") => Some(&c06::case_custom_key),
         ("C07", "histories") => Some(&c07::case_seq),
         ("C07", "schedules") => Some(&c07::case_sched),
         ("C08", "renders") => Some(&c08::case_render),
